@@ -520,6 +520,10 @@ class Tr:
                 return b + ["do %s <- l_%s %s %s;" % (x, f, self.fld("list", st[0]), t)], x, "liter"
             raise Unsupported("call of %s" % f)
         if k == "conv":
+            a0 = c["a"][0]
+            if a0["k"] == "ref" and a0["n"] == "nullopt" and "nullopt_t" in a0["t"] \
+                    and c["t"].replace("const ", "").startswith("std::optional<ValT>"):
+                return [], "None", "optval"       # std::nullopt as a std::optional<value_type>: disengaged
             b, t, kd = self.E(c["a"][0], st, env)
             if kd == "optval":
                 return b, t, "optval"
